@@ -153,8 +153,8 @@ def run_history(seed, steps_max=30, with_matrix_args=True):
     for step in range(nsteps):
         sh = rng.choice(live)
         src = sh.real
-        op = rng.choice(["assign", "assign", "assign_same", "shallow", "shallow_fresh_assign", "deep", "deep_mutate",
-                         "repop", "stats", "optimise", "relabel", "full_round"])
+        op = rng.choice(["assign", "assign", "assign_swap", "assign_swap", "assign_same", "shallow", "shallow_fresh_assign", "deep",
+                         "deep_mutate", "repop", "stats", "optimise", "relabel", "full_round"])
         trace.append(op)
         try:
             if op == "assign":
@@ -168,6 +168,30 @@ def run_history(seed, steps_max=30, with_matrix_args=True):
                     for k, cell in enumerate(sh.cells):
                         cell.members = [i for i, l in enumerate(new) if l == k]
                 bump("assign")
+            elif op == "assign_swap" and sh.labels is not None:
+                # size-preserving relabelling: two interior points of different clusters trade labels (every cluster keeps its
+                # size, its first and its last member) - the change a "cheap" membership comparison would miss
+                new = list(sh.labels)
+                cand = [i for i in range(1, T - 1)]
+                rng.shuffle(cand)
+                done_swap = False
+                for i in cand:
+                    for j in cand:
+                        if new[i] != new[j]:
+                            mi = [x for x, l in enumerate(new) if l == new[i]]
+                            mj = [x for x, l in enumerate(new) if l == new[j]]
+                            if i not in (mi[0], mi[-1]) and j not in (mj[0], mj[-1]):
+                                new[i], new[j] = new[j], new[i]
+                                done_swap = True
+                                break
+                    if done_swap:
+                        break
+                if done_swap:
+                    src.point_labels = list(new)
+                    sh.labels = list(new)
+                    for k, cell in enumerate(sh.cells):
+                        cell.members = [x for x, l in enumerate(new) if l == k]
+                    bump("assign_swap")
             elif op == "assign_same" and sh.labels is not None:
                 src.point_labels = list(sh.labels)
                 bump("assign_same")
